@@ -48,7 +48,7 @@ def _ladder_returns(func, var='bond'):
     """{order constant | 'else': set of returned string constants} for an if/elif ladder on `var == K`"""
     from .astutil import if_chain
     body_ = func.node.body
-    tops = [s for s in body_ if isinstance(s, ast.If) and any(t is not None and src(t).startswith(f'{var} == ') for t, _ in if_chain(s))]
+    tops = [s for s in body_ if isinstance(s, ast.If) and any(t is not None and (src(t).startswith(f'{var} == ') or src(t).startswith(f'{var}.order == ')) for t, _ in if_chain(s))]
     if not tops:
         raise AnalysisError(f'{func.fq}: `{var} == K` ladder not found')
     # one if/elif/else chain, or the flattened form: consecutive `if var == K: ... return` statements followed by the default return(s)
@@ -66,7 +66,8 @@ def _ladder_returns(func, var='bond'):
     for test, blk in entries:
         key = 'else'
         if test is not None:
-            if not (isinstance(test, ast.Compare) and src(test.left) == var and isinstance(test.ops[0], ast.Eq) and isinstance(test.comparators[0], ast.Constant)):
+            # Bond.__eq__(int) compares the order: `bond == K` and `bond.order == K` are the same test
+            if not (isinstance(test, ast.Compare) and src(test.left) in (var, f'{var}.order') and isinstance(test.ops[0], ast.Eq) and isinstance(test.comparators[0], ast.Constant)):
                 raise AnalysisError(f'{func.fq}: ladder guard `{src(test)}` not recognised')
             key = test.comparators[0].value
         rets = set()
@@ -146,7 +147,7 @@ def rule_smiles_codebooks(ck, repo, R):
             rets = helper_returns(n.value, fa.module.tree)  # token chosen by an extracted helper: its return expressions, arguments substituted
             if rets is not None:
                 hw |= {src(r) for r in rets if src(r) != "''"}
-            else:
+            elif src(n.value) != "''":  # the empty token is the initial value of the slot
                 hw.add(src(n.value))
     ck.decide(hw == {"'H'", "f'H{atom.implicit_hydrogens}'"} and 'H' in hl and all(f'H{i}' in hl for i in range(2, 5)), R, 'hydrogens', sorted(hw),
               f'hydrogen tokens written {sorted(hw)} vs read {sorted(hl)}', file=fa.file, line=fa.lineno)
